@@ -55,30 +55,32 @@ def lit1Impl (ch : Char) (s : List Char) (loc : Nat) : Out :=
 def caselessLitImpl (mU ret s : List Char) (loc : Nat) : Out :=
   if upper (slice s loc (loc + mU.length)) == mU then .ok (loc + mU.length) [.s ret] else .fail .parse loc
 
+/-- Keyword.parseImpl: the test for a following identifier character (2581-2590 / 2602-2611) -/
+def kwAfter (m ident : List Char) (up : Char → Char) (s : List Char) (loc : Nat) : Out :=
+  -- `loc >= len(instring) - matchLen or instring[loc+matchLen] not in identChars`
+  if loc + m.length ≥ s.length then .ok (loc + m.length) [.s m]
+  else match s[loc + m.length]? with
+    | none => .idx
+    | some c => if !mem (up c) ident then .ok (loc + m.length) [.s m] else .fail .parse (loc + m.length)
+
+/-- Keyword.parseImpl: the test for a preceding identifier character -/
+def kwTail (m ident : List Char) (up : Char → Char) (s : List Char) (loc : Nat) : Out :=
+  -- `if loc == 0 or instring[loc-1] not in identChars`
+  if loc == 0 then kwAfter m ident up s loc
+  else match s[loc - 1]? with
+    | none => .idx
+    | some c => if mem (up c) ident then .fail .parse (loc - 1) else kwAfter m ident up s loc
+
 /-- Keyword.parseImpl (2575-2616) -/
 def keywordImpl (m ident : List Char) (caseless : Bool) (s : List Char) (loc : Nat) : Out :=
-  let n := m.length
-  let up := fun (c : Char) => if caseless then upperC c else c
-  let tail := fun (_ : Unit) =>
-    -- `if loc == 0 or instring[loc-1] not in identChars`
-    let precOk : Option Bool :=
-      if loc == 0 then some true else (s[loc - 1]?).map (fun c => !mem (up c) ident)
-    match precOk with
-    | none => Out.idx
-    | some false => .fail .parse (loc - 1)
-    | some true =>
-      -- `loc >= len(instring) - matchLen or instring[loc+matchLen] not in identChars`
-      if loc + n ≥ s.length then .ok (loc + n) [.s m]
-      else match s[loc + n]? with
-        | none => .idx
-        | some c => if !mem (up c) ident then .ok (loc + n) [.s m] else .fail .parse (loc + n)
   if caseless then
-    if upper (slice s loc (loc + n)) == upper m then tail () else .fail .parse loc
+    if upper (slice s loc (loc + m.length)) == upper m then kwTail m ident upperC s loc else .fail .parse loc
   else
     match s[loc]? with
     | none => .idx
     | some c =>
-      if (some c == m.head? && n == 1) || startsWithAt s m loc then tail () else .fail .parse loc
+      if (some c == m.head? && m.length == 1) || startsWithAt s m loc then kwTail m ident id s loc
+      else .fail .parse loc
 
 /-- Word.parseImpl, the character loop (2984-3011) -/
 def wordSlowImpl (init body : List Char) (minLen : Nat) (maxLen : Option Nat) (maxSpec asKw : Bool)
